@@ -44,7 +44,9 @@ Inductive op :=
 | OMsg (c : nat) (m : jv) (limited : bool)          (* a decoded client frame; limiter verdict *)
        (rows : list (list pystr)) (prep : bool) (can_query : bool)   (* REQ: stored answer, prepare(), can_do(query) *)
        (add : addres) (auth : authres)              (* EVENT / AUTH outcomes *)
-| OBadJson (c : nat)
+| OBadJson (c : nat)                                 (* text the JSON decoder rejects (JSONDecodeError): ignored *)
+| OCrashJson (c : nat)                               (* the decoder raises something else (RecursionError on deep nesting,
+                                                        UnicodeEncodeError on lone surrogates): generic handler, close 1013 *)
 | ORow (c : nat) (sid : pystr)                      (* the query task of the registered (c,sid) takes one step *)
 | ONotify (k : nat)                                 (* the k-th pending notify task runs *)
 | ODrop (c : nat).                                  (* the client goes away *)
@@ -269,6 +271,9 @@ Definition step (cfg : rcfg) (st : rstate) (o : op) : sres :=
   | OBadJson c => match get_conn c (r_conns st) with
                   | Some x => if c_open x then SOkS st else SStuck
                   | None => SStuck end
+  | OCrashJson c => match get_conn c (r_conns st) with
+                    | Some x => if c_open x then SOkS (drop_conn st c (emit (FrClosed 1013) x)) else SStuck
+                    | None => SStuck end
   | OMsg c m limited rows prep can_query add auth =>
       (* notify_all_connected awaits the previous round of notify tasks: the driver releases every
          pending task, oldest first, before it hands over an EVENT message *)
